@@ -21,6 +21,7 @@ BOUNDS = {
 }
 GARBAGE = ["@@@ ???", "this is not fortran", "1 2 3", "= = =", "zz :"]  # the last one: a bare construct name
 RENDER = ["one", "two", "three-comment"]
+GARBAGE_ONE = ["x = 'oh no", 'print *, "a+b']  # an opened but unclosed character literal: rendered on one line only
 
 
 def render_garbage(g, mode, indent):
@@ -176,8 +177,8 @@ def run(task):
                 continue
             if full and si % 6 != task[2]:
                 continue
-            for gi, g in enumerate(garbage):
-                for mode in RENDER:
+            for gi, g in enumerate(list(garbage) + (GARBAGE_ONE if full else [])):
+                for mode in (RENDER if g not in GARBAGE_ONE else ["one"]):
                     for after in (False, True):
                         for prev_cont, keep_label in [(pc, kl) for pc in pcs for kl in ((False, True) if (s.label and full) else (False,))]:
                             if prev_cont and si == 0:
